@@ -36,12 +36,12 @@ CHEAP_KINDS = ['cpa', 'cpa_alt', 'dpa', 'attack_cpa']
 # rejection kinds per distinguisher family.  'first' = only a fault when nothing has been accepted yet;
 # 'later' = only a fault after an accepted batch (as a first call it would simply define the shape).
 WHYS = {
-    'cpa': ['traces_list', 'data_list', 'traces_3d', 'traces_1d', 'rows_more', 'rows_less', 'length', 'words'],
-    'cpa_alt': ['traces_list', 'data_list', 'traces_3d', 'traces_1d', 'rows_more', 'rows_less', 'length', 'words'],
-    'dpa': ['traces_list', 'data_list', 'traces_3d', 'traces_1d', 'rows_more', 'rows_less', 'length', 'words', 'dpa_range', 'dpa_dtype', 'data_float'],
-    'anova': ['traces_list', 'data_list', 'traces_3d', 'traces_1d', 'traces_float16', 'traces_complex', 'rows_more', 'rows_less', 'length', 'words', 'data_float', 'data_int64', 'auto_gt255', 'auto_neg'],
-    'tbuild': ['traces_list', 'data_list', 'traces_3d', 'traces_1d', 'traces_float16', 'traces_complex', 'rows_more', 'rows_less', 'length', 'two_words', 'data_float', 'data_int64', 'auto_gt255', 'auto_neg'],
-    'tmatch': ['traces_list', 'data_list', 'traces_3d', 'traces_1d', 'rows_more', 'rows_less', 'length', 'before_build', 'hyp_undeclared'],
+    'cpa': ['traces_list', 'data_list', 'traces_3d', 'traces_1d', 'traces_str', 'data_str', 'rows_more', 'rows_less', 'length', 'words'],
+    'cpa_alt': ['traces_list', 'data_list', 'traces_3d', 'traces_1d', 'traces_str', 'data_str', 'rows_more', 'rows_less', 'length', 'words'],
+    'dpa': ['traces_list', 'data_list', 'traces_3d', 'traces_1d', 'traces_str', 'data_str', 'rows_more', 'rows_less', 'length', 'words', 'dpa_range', 'dpa_dtype', 'data_float'],
+    'anova': ['traces_list', 'data_list', 'traces_3d', 'traces_1d', 'traces_str', 'data_str', 'traces_float16', 'traces_complex', 'rows_more', 'rows_less', 'length', 'words', 'data_float', 'data_int64', 'auto_gt255', 'auto_neg'],
+    'tbuild': ['traces_list', 'data_list', 'traces_3d', 'traces_1d', 'traces_str', 'data_str', 'traces_float16', 'traces_complex', 'rows_more', 'rows_less', 'length', 'two_words', 'data_float', 'data_int64', 'auto_gt255', 'auto_neg'],
+    'tmatch': ['traces_list', 'data_list', 'traces_3d', 'traces_1d', 'traces_str', 'data_str', 'rows_more', 'rows_less', 'length', 'before_build', 'hyp_undeclared'],
     'attack': ['sf_raises', 'length', 'rows_meta'],
 }
 for _k in ('nicv', 'snr', 'mia'):
@@ -143,6 +143,10 @@ def _bad_args(case, op, last_good):
         return t.tolist(), d
     if why == 'data_list':
         return t, d.tolist()
+    if why == 'traces_str':
+        return np.full(t.shape, 'x', dtype='U1'), d          # a 2-D array of the wrong kind (text)
+    if why == 'data_str':
+        return t, np.full(d.shape, 'x', dtype='U1')
     if why == 'traces_float16':
         return t.astype('float16'), d               # the compiled kernels have no half-precision version: refused inside the kernel call
     if why == 'traces_complex':
